@@ -2248,7 +2248,7 @@ protected:    // interface for the derived class
         // but let the containing sm handle the error, unless the event was generated in this fsm
         // (by calling process_event on this fsm object, is_direct_call == true)
         // completion events do not produce an error
-        if ( (!is_contained() || is_direct_call) && !handled && !is_completion_event<Event>::type::value)
+        if ( (!is_contained() || is_direct_call) && !handled && !is_completion_event<typename std::decay<Event>::type>::type::value)
         {
             for (int i=0; i<nr_regions::value;++i)
             {
